@@ -61,7 +61,7 @@ fn cmd_dispatch(args: &[String], prop: &'static dyn Property, tier: Tier, known:
             let shard: usize = arg_value(args, "--shard").and_then(|s| s.parse().ok()).unwrap_or(0);
             let nshards: usize = arg_value(args, "--nshards").and_then(|s| s.parse().ok()).unwrap_or(1);
             let out = arg_value(args, "--out");
-            start_watchdog(240, out.clone());
+            start_watchdog(900, out.clone());
             let stats = run_shard(prop, tier, seed, cases, shard, nshards, known);
             let mut j = stats.to_json();
             j["rule"] = json!(prop.rule());
@@ -76,7 +76,7 @@ fn cmd_dispatch(args: &[String], prop: &'static dyn Property, tier: Tier, known:
             let text = std::fs::read_to_string(path).map_err(|e| e.to_string())?;
             let v: Value = serde_json::from_str(&text).map_err(|e| e.to_string())?;
             let case = if v.get("case").is_some() { v["case"].clone() } else { v };
-            start_watchdog(480, None);
+            start_watchdog(900, None);
             let strict = !args.iter().any(|a| a == "--lenient");
             let (out, ctx) = eval_case(prop, &case, known, strict);
             let j = match &out {
